@@ -350,7 +350,8 @@ def run(ctx):
                    key={'clause': 'cipher_cell_law', 'law': str(r['error'])}, data=r['out'][-3000:])
     ctx.cov['cipher_cells_checked'] = NPOS * 256 * 2
     ctx.cov['cipher_cells_exhaustive'] = True
-    ctx.cov['exhaustive'] = {'cipher cell laws (decode.encode, encode.decode, permutation, period 143) on the observed tables': True,
+    ctx.cov['exhaustive'] = False
+    ctx.cov['exhaustive_parts'] = {'cipher cell laws (decode.encode, encode.decode, permutation, period 143) on the observed tables': True,
                              'programs / files / streams': False}
     for c in range(256):
         ctx.count(['cellrow', c])
